@@ -188,6 +188,11 @@ fn check_disconnect(w: &mut World, ci: usize, t_end_ns: u64) -> bool {
                 if started {
                     break;
                 }
+                // a connection the server reports after this client object was dropped belongs to
+                // a later object at the same address (which may even reuse the SYN nonce)
+                if e.t_ns > w.clients[ci].dropped_ns.unwrap_or(u64::MAX) {
+                    break;
+                }
                 // the server-side connection belongs to this client object iff the SYN-ACK it
                 // answered echoes this object's SYN nonce
                 let last_synack = w.wire.iter().filter(|r| r.src == w.server.addr && r.dst == addr && r.t_ns <= e.t_ns).filter_map(|r| if let Some(RFrame::SynAck { nonce_ack, .. }) = r.frame { Some(nonce_ack) } else { None }).last();
@@ -1095,20 +1100,26 @@ pub fn run_ep_ideal(seed: u64, params: &Params, out: &mut ScnOut) {
     let verbose = params.flag("verbose");
     let latency = *rng.pick(&[0u64, 5, 40]);
     let mut w = World::new(seed, NetCfg::ideal(latency), verbose);
-    let allocs = [3_000usize, 20_000, 64_000, 300_000, 1_000_000];
+    // limits above 2^32 are legal (usize) and advertised as 2^32-1
+    let allocs = [3_000usize, 20_000, 64_000, 300_000, 1_000_000, 1_000_000, 1 << 32, (1 << 33) + 5_000, usize::MAX];
     let c_alloc = *rng.pick(&allocs);
     let s_alloc = *rng.pick(&allocs);
     // each may send packets up to the other's allowance, also far above its own
-    let c_pkt = (rng.log_range(100, s_alloc as u64) as usize).min(1_000_000);
-    let s_pkt = (rng.log_range(100, c_alloc as u64) as usize).min(1_000_000);
-    let rates = [100_000usize, 2_000_000, 10_000_000];
+    let c_pkt = rng.log_range(100, (s_alloc as u64).min(1_000_000)) as usize;
+    let s_pkt = rng.log_range(100, (c_alloc as u64).min(1_000_000)) as usize;
+    let rates = [20_000usize, 100_000, 2_000_000, 10_000_000, 1 << 32, (1 << 32) + 2_000_000, usize::MAX];
     let ccfg = uflow::EndpointConfig { max_send_rate: *rng.pick(&rates), max_receive_rate: *rng.pick(&rates), max_packet_size: c_pkt, max_receive_alloc: c_alloc, keepalive: true, keepalive_interval_ms: 2000, active_timeout_ms: 60_000 };
     let scfg_ep = uflow::EndpointConfig { max_send_rate: *rng.pick(&rates), max_receive_rate: *rng.pick(&rates), max_packet_size: s_pkt, max_receive_alloc: s_alloc, keepalive: true, keepalive_interval_ms: 2000, active_timeout_ms: 60_000 };
     let cads = [(MS, MS), (10 * MS, 10 * MS), (50 * MS, 50 * MS), (100 * MS, 100 * MS)];
-    let scfg = uflow::server::Config { max_total_connections: 4, max_active_connections: 4, enable_handshake_errors: true, endpoint_config: scfg_ep };
+    let scfg = uflow::server::Config { max_total_connections: 4, max_active_connections: 4, enable_handshake_errors: true, endpoint_config: scfg_ep.clone() };
     w.bind_server(scfg, *rng.pick(&cads));
     let addr = client_addr(0);
-    let ci = match w.connect_client(ccfg, addr, *rng.pick(&cads), None) {
+    let cap = |v: usize| -> u64 { (v as u64).min(u32::MAX as u64) };
+    // ceilings of the two directions as negotiated: min(local send, peer receive)
+    let b_c2s = cap(ccfg.max_send_rate).min(cap(scfg_ep.max_receive_rate)) as f64;
+    let b_s2c = cap(scfg_ep.max_send_rate).min(cap(ccfg.max_receive_rate)) as f64;
+    let (mut rtt_c, mut rtt_s) = (0.0f64, 0.0f64);
+    let ci = match w.connect_client(ccfg.clone(), addr, *rng.pick(&cads), None) {
         Some(i) => i,
         None => {
             w.finish();
@@ -1133,6 +1144,7 @@ pub fn run_ep_ideal(seed: u64, params: &Params, out: &mut ScnOut) {
         .max(12.min(max))
     };
     let horizon = 900 * SEC;
+    let mut live_viol: Option<String> = None;
     let mut idle_since: Option<u64> = None;
     let mut guard = 0u64;
     while w.now_ns <= horizon && !w.panicked {
@@ -1148,6 +1160,22 @@ pub fn run_ep_ideal(seed: u64, params: &Params, out: &mut ScnOut) {
         let s_up = w.server.conn_state.get(&addr) == Some(&1);
         if w.clients[ci].state == 2 || w.server.conn_state.get(&addr) == Some(&2) {
             break;
+        }
+        // C14 at endpoint level: the allowed rate of either sender never exceeds the ceiling that
+        // follows from the two configurations
+        if let Some((x, r)) = w.clients[ci].client.as_ref().and_then(|c| c.verif_half_connection()).map(|h| (h.verif_send_rate(), h.rtt_s().unwrap_or(0.0))) {
+            rtt_c = rtt_c.max(r);
+            w.c.inc("ep_live_rate_samples");
+            if x > b_c2s && live_viol.is_none() {
+                live_viol = Some(format!("client's allowed send rate is {} B/s at t={} ms; the ceiling is min(client max_send_rate {}, server max_receive_rate {}) = {}", x, w.now_ns / MS, ccfg.max_send_rate, scfg_ep.max_receive_rate, b_c2s));
+            }
+        }
+        if let Some((x, r)) = w.server.server.as_ref().and_then(|s| s.client(&addr)).and_then(|rc| rc.borrow().verif_half_connection().map(|h| (h.verif_send_rate(), h.rtt_s().unwrap_or(0.0)))) {
+            rtt_s = rtt_s.max(r);
+            w.c.inc("ep_live_rate_samples");
+            if x > b_s2c && live_viol.is_none() {
+                live_viol = Some(format!("server's allowed send rate towards the client is {} B/s at t={} ms; the ceiling is min(server max_send_rate {}, client max_receive_rate {}) = {}", x, w.now_ns / MS, scfg_ep.max_send_rate, ccfg.max_receive_rate, b_s2c));
+            }
         }
         if c_up && s_up {
             match who {
@@ -1191,6 +1219,56 @@ pub fn run_ep_ideal(seed: u64, params: &Params, out: &mut ScnOut) {
         w.viol("C06", "dud-between-uflow-endpoints", format!("{} packets were replaced by data-less placeholders because a receive allocation was exceeded, between a real Client (may send {} B packets, can hold {} B) and Server (may send {}, can hold {}) on an ideal network", duds, c_pkt, c_alloc, s_pkt, s_alloc));
     }
     check_payloads(&mut w);
+    if let Some(m) = live_viol {
+        w.viol("C14", "live-rate-above-ceiling", m);
+    }
+    // C07: what goes on the wire in the handshake is the configuration, capped at 2^32-1
+    {
+        let want_syn = (cap(ccfg.max_receive_rate) as u32, cap(ccfg.max_packet_size) as u32, cap(ccfg.max_receive_alloc) as u32);
+        let want_synack = (cap(scfg_ep.max_receive_rate) as u32, cap(scfg_ep.max_packet_size) as u32, cap(scfg_ep.max_receive_alloc) as u32);
+        let mut bad: Option<String> = None;
+        for r in w.wire.iter() {
+            match r.frame {
+                Some(RFrame::Syn { max_receive_rate, max_packet_size, max_receive_alloc, .. }) if r.src == addr => {
+                    w.c.inc("ep_advertised_limits_checked");
+                    if (max_receive_rate, max_packet_size, max_receive_alloc) != want_syn && bad.is_none() {
+                        bad = Some(format!("the client's SYN advertises (receive rate, packet size, receive allocation) = {:?}, its configuration capped at 2^32-1 is {:?}", (max_receive_rate, max_packet_size, max_receive_alloc), want_syn));
+                    }
+                }
+                Some(RFrame::SynAck { max_receive_rate, max_packet_size, max_receive_alloc, .. }) if r.dst == addr => {
+                    w.c.inc("ep_advertised_limits_checked");
+                    if (max_receive_rate, max_packet_size, max_receive_alloc) != want_synack && bad.is_none() {
+                        bad = Some(format!("the server's SYN-ACK advertises (receive rate, packet size, receive allocation) = {:?}, its configuration capped at 2^32-1 is {:?}", (max_receive_rate, max_packet_size, max_receive_alloc), want_synack));
+                    }
+                }
+                _ => {}
+            }
+        }
+        if let Some(m) = bad {
+            w.viol("C07", "advertised-limits-differ-from-configuration", m);
+        }
+        let connected = w.clients[ci].events.iter().any(|e| e.ev == Ev::Connect) && w.server.events.iter().any(|(a, e)| *a == addr && e.ev == Ev::Connect);
+        if !connected && !w.panicked {
+            let ce: Vec<String> = w.clients[ci].events.iter().take(3).map(|e| format!("{:?}", e.ev)).collect();
+            w.viol("C07", "compatible-configurations-did-not-connect", format!("client (may send {} B packets, can hold {}, receive rate {}) and server (may send {}, can hold {}, receive rate {}) are compatible but did not connect on an ideal network; client saw {:?}", c_pkt, c_alloc, ccfg.max_receive_rate, s_pkt, s_alloc, scfg_ep.max_receive_rate, ce));
+        }
+    }
+    // C13 at endpoint level: connection frames (data, acks, sync) per direction against the
+    // negotiated ceiling, with the largest RTT estimate the sender ever held and its largest step
+    // interval (the coarse form of the bound: anything it reports is far outside)
+    for (dir, src, b, rtt, gap) in [("client->server", addr, b_c2s, rtt_c, w.clients[ci].max_step_gap_ns), ("server->client", w.server.addr, b_s2c, rtt_s, w.server.max_step_gap_ns)] {
+        let tr: Vec<crate::hcsim::TxEvent> = w.wire.iter().filter(|r| r.src == src && !r.injected && matches!(r.frame, Some(RFrame::Data { .. }) | Some(RFrame::Acks { .. }) | Some(RFrame::Sync { .. }))).map(|r| crate::hcsim::TxEvent { t_ns: r.t_ns, len: r.len as u32, rtt_s: rtt, step_dt_ns: gap, after_app_flush: true }).collect();
+        let mut v = Vec::new();
+        let mut cc = Counters::default();
+        crate::hcsim::check_rate_trace(if dir == "client->server" { 0 } else { 1 }, b, &tr, &mut cc, &mut v);
+        w.c.add("ep_rate_events", cc.get("rate_events"));
+        for x in v {
+            if x.sig.starts_with("C13:rate-exceeded") || x.sig.starts_with("C13:long-run") {
+                w.viol("C13", "ep-rate-exceeded", format!("{} (negotiated ceiling {} B/s): {}", dir, b, x.msg));
+                break;
+            }
+        }
+    }
     // C05: each application sees exactly the other's submissions, in order
     let c_sends: Vec<(u64, usize, u8)> = w.clients[ci].events.iter().filter_map(|e| if let Ev::AppSend(h, l, m) = e.ev { Some((h, l, m)) } else { None }).collect();
     let s_sends: Vec<(u64, usize, u8)> = w.server.events.iter().filter(|(a, _)| *a == addr).filter_map(|(_, e)| if let Ev::AppSend(h, l, m) = e.ev { Some((h, l, m)) } else { None }).collect();
@@ -1305,7 +1383,11 @@ pub fn run_family(family: &str, scn_seed: u64, _idx: u64, params: &Params, out: 
         }
         let (n, v) = crate::alloc::take_violations();
         if n > 0 {
-            out.violations.push(Violation::new("C19", "layout-mismatch", "C19:layout-mismatch:endpoints", format!("{} allocator-contract violations in a {} scenario; first: freed with size {} align {}, allocated with size {} align {}", n, family, v[0].free_size, v[0].free_align, v[0].alloc_size, v[0].alloc_align)));
+            if v[0].kind == 2 {
+                out.violations.push(Violation::new("C19", "double-free", "C19:double-free:endpoints", format!("{} allocator-contract violations in a {} scenario; first: a block of size {} align {} was released that is not live (released before, or never obtained from the allocator)", n, family, v[0].free_size, v[0].free_align)));
+            } else {
+                out.violations.push(Violation::new("C19", "layout-mismatch", "C19:layout-mismatch:endpoints", format!("{} allocator-contract violations in a {} scenario; first: freed with size {} align {}, allocated with size {} align {}", n, family, v[0].free_size, v[0].free_align, v[0].alloc_size, v[0].alloc_align)));
+            }
         }
     }
     ok
@@ -1465,6 +1547,7 @@ pub fn run_timers(seed: u64, params: &Params, out: &mut ScnOut) {
     let disc_delay = *rng.pick(&[0u64, 50, 500, 1500, 1900, 3000, 10_000]) * MS;
     let disc_lost = *rng.pick(&[0u32, 1, 3, 9, 10, 11, 1000, 1000]);
     let disc_now = rng.chance(0.6);
+    let disc_peer_dies = Rng::new(seed ^ 0xd1e5).chance(0.35);
     let mut disc_called = false;
     let mut guard = 0;
     let mut probe_last = u64::MAX;
@@ -1504,6 +1587,22 @@ pub fn run_timers(seed: u64, params: &Params, out: &mut ScnOut) {
                         let (from, to) = if disc_by_client { (a, w.server.addr) } else { (w.server.addr, a) };
                         w.net.drop_rules.push(DropRule { from: Some(from), to: Some(to), frame_type: "disconnect", remaining: disc_lost });
                     }
+                    if disc_peer_dies {
+                        // the peer falls silent for good at this very moment, with data of the
+                        // caller still unacknowledged: whatever kind of disconnect was asked for,
+                        // the caller has to end with a timeout of one sort or the other
+                        let (peer, me) = if disc_by_client { (w.server.addr, a) } else { (a, w.server.addr) };
+                        for ft in ["data", "acks", "sync", "disconnect", "disconnectack", "synack", "ack"] {
+                            w.net.drop_rules.push(DropRule { from: Some(peer), to: Some(me), frame_type: ft, remaining: 1_000_000 });
+                        }
+                        for _ in 0..3 {
+                            if disc_by_client {
+                                w.client_send(ci, 100, 0, 3);
+                            } else {
+                                w.server_send(a, 100, 0, 3);
+                            }
+                        }
+                    }
                     if disc_by_client {
                         w.client_disconnect(ci, disc_now);
                     } else {
@@ -1541,7 +1640,15 @@ pub fn run_timers(seed: u64, params: &Params, out: &mut ScnOut) {
         if let Some(c) = evs.iter().find(|e| e.ev == Ev::Connect) {
             // the active timeout is judged up to the endpoint's own disconnect call (after it the
             // disconnect retry budget below applies)
-            let end = evs.iter().find(|e| matches!(e.ev, Ev::Disconnect | Ev::Error(_) | Ev::AppDisconnect | Ev::AppDisconnectNow)).map(|e| (e.t_ns, e.ev == Ev::Error("timeout")));
+            // the active timeout is judged until the endpoint's own Disconnect request is on the
+            // wire (after it the disconnect retry budget below applies); a graceful disconnect()
+            // that is still waiting for its send queue to drain leaves the connection active
+            let own_req = w.wire.iter().find(|r| !r.injected && r.src == addr && r.dst == srv && r.t_ns >= c.t_ns && matches!(r.frame, Some(RFrame::Disconnect))).map(|r| (r.t_ns, false));
+            let term = evs.iter().find(|e| matches!(e.ev, Ev::Disconnect | Ev::Error(_))).map(|e| (e.t_ns, e.ev == Ev::Error("timeout")));
+            let end = match (term, own_req) {
+                (Some(a), Some(b)) => Some(if b.0 < a.0 { b } else { a }),
+                (a, b) => a.or(b),
+            };
             check_active_timeout(&mut w, "client", &steps, &reads, c.t_ns, end, t_end, ccfg.active_timeout_ms);
         }
     }
@@ -1551,7 +1658,12 @@ pub fn run_timers(seed: u64, params: &Params, out: &mut ScnOut) {
         let reads = read_steps(&steps, &dl);
         let evs: Vec<EvRec> = w.server.events.iter().filter(|(a, _)| *a == addr).map(|(_, e)| e.clone()).collect();
         if let Some(c) = evs.iter().find(|e| e.ev == Ev::Connect) {
-            let end = evs.iter().find(|e| e.t_ns >= c.t_ns && matches!(e.ev, Ev::Disconnect | Ev::Error(_) | Ev::AppDisconnect | Ev::AppDisconnectNow)).map(|e| (e.t_ns, e.ev == Ev::Error("timeout")));
+            let own_req = w.wire.iter().find(|r| !r.injected && r.src == srv && r.dst == addr && r.t_ns >= c.t_ns && matches!(r.frame, Some(RFrame::Disconnect))).map(|r| (r.t_ns, false));
+            let term = evs.iter().find(|e| e.t_ns >= c.t_ns && matches!(e.ev, Ev::Disconnect | Ev::Error(_))).map(|e| (e.t_ns, e.ev == Ev::Error("timeout")));
+            let end = match (term, own_req) {
+                (Some(a), Some(b)) => Some(if b.0 < a.0 { b } else { a }),
+                (a, b) => a.or(b),
+            };
             check_active_timeout(&mut w, "server", &steps, &reads, c.t_ns, end, t_end, scfg_ep.active_timeout_ms);
         }
     }
@@ -1677,7 +1789,9 @@ pub fn run_timers(seed: u64, params: &Params, out: &mut ScnOut) {
                 // only judge connections whose peer also connected (otherwise nothing is sent)
                 let both = w.clients[ci].events.iter().any(|e| e.ev == Ev::Connect) && w.server.events.iter().any(|(a, e)| *a == addr && e.ev == Ev::Connect);
                 if connected && both {
-                    if let Some(e) = evs.iter().find(|e| e.ev == Ev::Error("timeout")) {
+                    // (a timeout reported before the Connect belongs to an earlier handshake attempt)
+                    let t_conn = evs.iter().find(|e| e.ev == Ev::Connect).map_or(0, |e| e.t_ns);
+                    if let Some(e) = evs.iter().find(|e| e.ev == Ev::Error("timeout") && e.t_ns >= t_conn) {
                         w.viol("C10", "idle-connection-timed-out-despite-keepalive", format!("{} reported Error(Timeout) at t={} ms on a loss-free network although the peer has keepalive on (interval {} ms) and active_timeout_ms = {} (latency {} ms, steps <= {} ms)", name, e.t_ns / MS, peer_ka_int, my_to, latency, step_max));
                     }
                 }
@@ -2118,7 +2232,8 @@ pub fn run_limits(seed: u64, params: &Params, out: &mut ScnOut) {
     let mut rng = Rng::new(seed);
     let verbose = params.flag("verbose");
     let max_active = rng.range(1, 8) as usize;
-    let max_total = rng.range(max_active as u64, 16) as usize;
+    // the total limit is usually the larger one, but need not be (both only have to be positive)
+    let max_total = if Rng::new(seed ^ 0x7071).chance(0.25) { rng.range(1, max_active as u64) as usize } else { rng.range(max_active as u64, 16) as usize };
     let n_clients = rng.range(1, 40) as usize;
     let mut net = NetCfg::ideal(*rng.pick(&[0u64, 5, 40]));
     // overlap pattern of the handshakes
